@@ -186,6 +186,12 @@ def check(ctx):
                "compared with the clock read itself, not with a later moment", floor=1)
     ctx.guarded(o, lambda o: future_end_check(ctx, o))
 
+    o = ctx.ob('outside_predecessors_without_dates_are_diagnosed', 'R6a',
+               "the isolation check raises RuntimeError for EVERY predecessor outside the WBS that lacks a start or an end date: the "
+               "dates tested in front of the raise are those of a variable that ranges over all predecessors of the task (a loop / "
+               "comprehension over <task>.predecessors), not of one element picked from them", floor=1)
+    ctx.guarded(o, lambda o: isolation_check(ctx, o))
+
     o = ctx.ob('dependency_dates_none_safe', 'R6b',
                "the dates of the dependencies that bound a task enter max()/min() only when they are not None: the comprehension "
                "filters `is not None`, or the pre-flight validation demands that date for every task of that relation (a linked task "
@@ -655,9 +661,34 @@ def loop_check(ctx, o):
         if isinstance(n, ast.Assign) and isinstance(n.targets[0], ast.Tuple) and len(n.targets[0].elts) == 2 and \
                 isinstance(n.value, ast.Name) and n.value.id == tp:
             names = [e.id for e in n.targets[0].elts]
+    node_cls = None
+    if names is None and wf.kind == 'method' and wf.cls and wf.cls in prog.classes:
+        # the nodes are instances of a two-field record class (NamedTuple / dataclass) and the successor function is one of its
+        # methods: `self.task` / `self.is_end` are the two components, `_Node(x, True)` builds a node
+        ci = prog.classes[wf.cls]
+        flds = [s_.target.id for s_ in ci.node.body if isinstance(s_, ast.AnnAssign) and isinstance(s_.target, ast.Name)]
+        if len(flds) == 2 and ('NamedTuple' in ci.bases or ci.dataclass_frozen is not None) and '__init__' not in ci.methods and \
+                '__new__' not in ci.methods:
+            names = [f"{tp}.{flds[0]}", f"{tp}.{flds[1]}"]
+            node_cls = (ci.name, flds)
     if names is None:
         o.undecided(wf, wf.node, 'waits_for', "node is not unpacked as (task, is_end)")
         return
+
+    def _is(e, name):
+        return isinstance(e, (ast.Name, ast.Attribute)) and src(e) == name
+
+    def node_elts(n):
+        """[task expression, flag expression] of an expression that builds a node: a 2-tuple, or a call of the record class"""
+        if isinstance(n, ast.Tuple) and len(n.elts) == 2:
+            return list(n.elts)
+        if node_cls is not None and isinstance(n, ast.Call) and isinstance(n.func, ast.Name) and n.func.id == node_cls[0] and \
+                not any(isinstance(a_, ast.Starred) for a_ in n.args) and all(k_.arg in node_cls[1] for k_ in n.keywords):
+            vals = dict(zip(node_cls[1], n.args))
+            vals.update({k_.arg: k_.value for k_ in n.keywords})
+            if len(vals) == 2 and len(n.args) + len(n.keywords) == 2:
+                return [vals[node_cls[1][0]], vals[node_cls[1][1]]]
+        return None
     found = {'end->start': False, 'end->children': False, 'start->pred': False, 'start->parent': False}
     narrowed, unknown, opaque = {}, [], []
     BUILTIN = ('iter', 'list', 'tuple', 'len', 'id', 'reversed', 'sorted', 'set', 'range', 'enumerate', 'zip', 'str', 'isinstance')
@@ -683,7 +714,7 @@ def loop_check(ctx, o):
                 a2, q2 = facts.norm_cond(a_, q_)
                 while isinstance(a2, ast.UnaryOp) and isinstance(a2.op, ast.Not):
                     a2, q2 = a2.operand, not q2
-                if isinstance(a2, ast.Name) and a2.id == ev:
+                if _is(a2, ev):
                     flag = q2
             return 'end' if flag is True else 'start'
 
@@ -706,7 +737,7 @@ def loop_check(ctx, o):
             return None
 
         def elem_x(tup):
-            e = tup.elts[0]
+            e = node_elts(tup)[0]
             if isinstance(e, ast.Name) and e.id != tv:
                 at = wcfg.node_containing(tup)
                 d = flow_of(fn).unique_def(e.id, at) if at is not None else None
@@ -721,7 +752,7 @@ def loop_check(ctx, o):
                 core = a2
                 while isinstance(core, ast.UnaryOp) and isinstance(core.op, ast.Not):
                     core, q2 = core.operand, not q2
-                if ev is not None and isinstance(core, ast.Name) and core.id == ev:
+                if ev is not None and _is(core, ev):
                     continue
                 if any(facts.cond_is(a_, q_, pat, want=w) for pat, w in allowed):
                     continue
@@ -733,13 +764,16 @@ def loop_check(ctx, o):
 
         for st in stmts:
             for n in ast.walk(st):
-                if isinstance(n, ast.Tuple) and len(n.elts) == 2 and isinstance(n.elts[1], ast.Constant) and isinstance(n.elts[1].value, bool):
+                ne = node_elts(n)
+                if ne is not None and isinstance(n, ast.Call) and not (isinstance(ne[1], ast.Constant) and isinstance(ne[1].value, bool)):
+                    unknown.append(n)          # a node of the record class whose side is not a literal
+                elif ne is not None and isinstance(ne[1], ast.Constant) and isinstance(ne[1].value, bool):
                     tup, side = n, side_of(st, n)
                     gen = source_of(tup)
-                    tgt, flag = elem_x(tup), tup.elts[1].value
+                    tgt, flag = elem_x(tup), ne[1].value
                     kind, allowed, allowed_seqs = None, [], []
                     if gen is None:
-                        if side == 'end' and isinstance(tgt, ast.Name) and tgt.id == tv and flag is False:
+                        if side == 'end' and _is(tgt, tv) and flag is False:
                             kind = 'end->start'
                         elif side == 'start' and match(f"{tv}.parent", tgt) and flag is False:
                             kind, allowed = 'start->parent', [(f"{tv}.parent is None", False), (f"{tv}.parent", True)]
@@ -1717,7 +1751,10 @@ def dependency_dates(ctx, o):
             continue
         elt, tgt, it, ifs = pt['parts']
         attr = ps.end_attr
-        if any(match(f"{tgt.id}.{attr} is not None", c) or match(f"{tgt.id}.{attr}", c) for c in ifs):
+        # `not x.end is None` (a guard clause `if x.end is None: continue` turned into a filter) says the same as `x.end is not None`
+        if any(match(f"{tgt.id}.{attr} is not None", c) or match(f"{tgt.id}.{attr}", c) or
+               facts.cond_is(c, True, f"{tgt.id}.{attr} is None", want=False) or facts.cond_is(c, True, f"{tgt.id}.{attr}", want=True)
+               for c in ifs):
             o.site(ps.f, pt['stmt'], f"{ps.rel}: {attr} filtered `is not None`")
         elif (ps.rel, attr) in demanded:
             # validated for outside tasks, assigned by the recursion for inside tasks
@@ -1726,6 +1763,69 @@ def dependency_dates(ctx, o):
             o.refute(ps.f, pt['stmt'], pt['comp'], f"`{src(pt['comp'])[:70]}` feeds the {attr} of every task in `{src(it)[:30]}` into {ps.lat}() without a "
                                                    f"None filter, and _validate_graph_isolation does not demand a {attr} for {ps.rel}: a linked task "
                                                    f"outside the WBS (not scheduled by the pass) without a {attr} ends calc in TypeError")
+
+
+def isolation_check(ctx, o):
+    """which variable's dates guard the RuntimeError of _validate_graph_isolation: one that ranges over every predecessor (site), or
+    one element picked by next(<generator over the predecessors>) (refuted: the other outside predecessors are never looked at)"""
+    prog = ctx.prog
+    vf = prog.func('schedule._validate_graph_isolation')
+    fl = flow_of(vf)
+    gs = [g for g in facts.guards_of(prog, vf, ctx.typer) if g.exc == 'RuntimeError']
+    if not gs:
+        o.undecided(vf, vf.node, 'raise', "no RuntimeError raise found in the isolation check itself")
+        return
+
+    def over_preds(it):
+        return any(isinstance(x, ast.Attribute) and x.attr == 'predecessors' for x in ast.walk(it))
+
+    def picked_by_next(e):
+        """e = next(<generator / iter(list) over ..predecessors..>[, default]) -> the generator"""
+        if isinstance(e, ast.Call) and isinstance(e.func, ast.Name) and e.func.id == 'next' and e.args:
+            a = e.args[0]
+            m = match("iter($x)", a)
+            if m:
+                a = m['x']
+            if isinstance(a, (ast.GeneratorExp, ast.ListComp)) and len(a.generators) == 1 and over_preds(a.generators[0].iter):
+                return a
+        return None
+
+    ok = bad = None
+    for g in gs:
+        for t, _pol in g.conds:
+            par = {}
+            for x in ast.walk(t):
+                for c in ast.iter_child_nodes(x):
+                    par[id(c)] = x
+            for n in ast.walk(t):
+                if not (isinstance(n, ast.Attribute) and n.attr in ('start', 'end') and isinstance(n.ctx, ast.Load)):
+                    continue
+                base = n.value
+                if picked_by_next(base) is not None:
+                    bad = bad or (g, base)
+                elif isinstance(base, ast.Name):
+                    ds = fl.defs_of(base.id)
+                    pk = [d for d in ds if d.kind == 'assign' and d.value is not None and picked_by_next(d.value) is not None]
+                    if pk and len(pk) == len(ds):
+                        bad = bad or (g, pk[0].value)
+                        continue
+                    its = [i for tg, i in g.binders if isinstance(tg, ast.Name) and tg.id == base.id]
+                    x = n
+                    while id(x) in par:
+                        x = par[id(x)]
+                        if isinstance(x, (ast.GeneratorExp, ast.ListComp, ast.SetComp)):
+                            its += [gen.iter for gen in x.generators if isinstance(gen.target, ast.Name) and gen.target.id == base.id]
+                    if any(over_preds(i) for i in its):
+                        ok = ok or (g, n)
+    if bad:
+        g, e = bad
+        o.refute(vf, g.node, e, f"the dates tested in front of the raise are those of `{src(e)[:80]}`: one predecessor picked by next(), the "
+                                f"first that passes the filter - a later predecessor outside the WBS without dates is never looked at, calc "
+                                f"returns a schedule instead of the RuntimeError diagnosis")
+    elif ok:
+        o.site(vf, ok[0].node, f"RuntimeError under a test of `{src(ok[1])}` for every predecessor")
+    else:
+        o.undecided(vf, gs[0].node, 'dates', "no test of the start / end of a variable ranging over the predecessors recognised in front of the raise")
 
 
 def resource_keys(ctx, o, core):
@@ -1764,6 +1864,14 @@ def resource_keys(ctx, o, core):
                     o.site(f, n, f"keyed by the resource name `{src(k)}`")
 
 
+def _day_of(e):
+    """x for `x.date()` / midnight(x): the expression truncated to its calendar day; else None"""
+    m = match("$x.date()", e)
+    if m:
+        return m['x']
+    return facts.is_midnight_of(e)
+
+
 def future_end_check(ctx, o):
     prog = ctx.prog
     vf = sched_dep.resolve_validator(ctx, FWD, sched_dep.FUTURE_END)
@@ -1790,6 +1898,21 @@ def future_end_check(ctx, o):
             if not (isinstance(t, ast.Compare) and len(t.ops) == 1):
                 continue
             l, op, rr = t.left, t.ops[0], t.comparators[0]
+            ld, rd = _day_of(l), _day_of(rr)
+            if ld is not None and rd is not None and any(isinstance(x_, ast.Attribute) and x_.attr == 'end' for x_ in (ld, rd)):
+                # both sides truncated to their calendar day: `t.end.date() > datetime.now().date()`
+                end_left = isinstance(ld, ast.Attribute) and ld.attr == 'end'
+                clock = rd if end_left else ld
+                strict = (isinstance(op, ast.Gt) and p) or (isinstance(op, ast.LtE) and not p) if end_left else \
+                    (isinstance(op, ast.Lt) and p) or (isinstance(op, ast.GtE) and not p)
+                found = True
+                if strict and sched_dep._is_now(clock):
+                    o.refute(vf, r, t, f"`{src(t)[:70]}` compares calendar days, not moments: a fixed end later today (same day as the clock, "
+                                       f"but in the future) is not diagnosed with RuntimeError and is scheduled with its start after its end")
+                else:
+                    o.undecided(vf, r, t, f"the future-end check compares day-truncated values `{src(t)[:70]}`, which the rule cannot relate to "
+                                          f"`task.end > clock`")
+                continue
             if isinstance(l, ast.Attribute) and l.attr == 'end' and ((isinstance(op, (ast.Gt, ast.GtE)) and p) or (isinstance(op, (ast.LtE, ast.Lt)) and not p)):
                 other = rr
             elif isinstance(rr, ast.Attribute) and rr.attr == 'end' and ((isinstance(op, (ast.Lt, ast.LtE)) and p) or (isinstance(op, (ast.GtE, ast.Gt)) and not p)):
